@@ -52,10 +52,137 @@ def opQC (args obs : List String) : P String := do
                       showList showRat (cr.map (valueOf fmt)), showList showRat (ci.map (valueOf fmt))] obs)
   | _ => throw "QC: arity"
 
+def zipAll {α β} (p : α → β → Bool) : List α → List β → Bool
+  | [], [] => true
+  | a :: as, b :: bs => p a b && zipAll p as bs
+  | _, _ => false
+
+def flagsTok (fl : List Flags) : List String :=
+  [showBool (fl.any (·.ov)), showBool (fl.any (·.un)), showBool (fl.any (·.inacc))]
+
+/-- `W3 <fmt> <rounding> <route> [ints] | [codes]` — wrap of Python integers of any size, any word length.
+Relational checker: in range and congruent to the rounded scaled input. -/
+def opW3 (args obs : List String) : P String := do
+  match args with
+  | [s, n, f, r, _route, vs] =>
+    let fmt ← pFmt s n f
+    let r ← pRounding r
+    let vs ← pList pInt vs
+    let ks := vs.map (fun (v : Int) => roundR r (scale (v:Rat) fmt.nfrac))
+    let model := ks.map (wrap fmt)
+    match obs with
+    | [cs] =>
+      match pList pInt cs with
+      | .ok cs => pure (reply (decide (cs = model)) (zipAll (fun k c => Chk.c03 fmt k c) ks cs) [showList toString model])
+      | .error _ => pure (reply false false [showList toString model])
+    | _ => pure (reply false false [showList toString model])
+  | _ => throw "W3: arity"
+
+/-- `WS <fmt> <rounding> <v> <t> | code(v) code(v + t*2^(n_word-n_frac))` — shift invariance, judged on the
+implementation alone (the two observed codes must be equal). -/
+def opWS (args obs : List String) : P String := do
+  match args with
+  | [s, n, f, r, v, t] =>
+    let fmt ← pFmt s n f
+    let r ← pRounding r
+    let v ← pRat v
+    let t ← pInt t
+    let v2 := v + (t:Rat) * scale 1 ((fmt.nword:Int) - fmt.nfrac)
+    let c1 := quantize fmt r .wrap v
+    let c2 := quantize fmt r .wrap v2
+    let model := [toString c1, toString c2]
+    match obs with
+    | [a, b] => pure (reply (decide (model = obs)) (a == b && a.toInt?.isSome) model)
+    | _ => pure (reply false false model)
+  | _ => throw "WS: arity"
+
+/-- `WR <fmt> <op> <a> <b> | code` — storing `a op b` (codes of two operands of the same format, n_frac = 0)
+into the same format with wrap: an n_word-bit register. -/
+def opWR (args obs : List String) : P String := do
+  match args with
+  | [s, n, f, op, a, b] =>
+    let fmt ← pFmt s n f
+    let a ← pInt a
+    let b ← pInt b
+    let exact ← match op with
+      | "add" => pure (a + b)
+      | "sub" => pure (a - b)
+      | "mul" => pure (a * b)
+      | _ => throw "WR: op"
+    let model := wrap fmt exact
+    match obs with
+    | [c] =>
+      match c.toInt? with
+      | some c => pure (reply (decide (c = model)) (Chk.c03 fmt exact c) [toString model])
+      | none => pure (reply false false [toString model])
+    | _ => pure (reply false false [toString model])
+  | _ => throw "WR: arity"
+
+/-- `R5 <fmt> <rounding> <overflow> <carrier> <route> [v...] | [codes]` — C05 directional contracts judged
+relationally on the observed codes (no reference quantizer in the checker). -/
+def opR5 (args obs : List String) : P String := do
+  match args with
+  | [s, n, f, r, o, _carrier, _route, vs] =>
+    let fmt ← pFmt s n f
+    let r ← pRounding r
+    let o ← pOverflow o
+    let vs ← pList pRat vs
+    if !(vs.all (inCoreDomain fmt)) then return "SKIP"
+    let model := vs.map (quantize fmt r o)
+    match obs with
+    | [cs] =>
+      match pList pInt cs with
+      | .ok cs => pure (reply (decide (cs = model)) (zipAll (fun v c => Chk.c05 fmt r v c) vs cs) [showList toString model])
+      | .error _ => pure (reply false false [showList toString model])
+    | _ => pure (reply false false [showList toString model])
+  | _ => throw "R5: arity"
+
+/-- `I5 <fmt> <rounding> <overflow> <how> [codes] | [codes'] ov un inacc` — idempotence: storing the value of
+every code gives the same code and no flag. -/
+def opI5 (args obs : List String) : P String := do
+  match args with
+  | [s, n, f, r, o, _how, cs] =>
+    let fmt ← pFmt s n f
+    let r ← pRounding r
+    let o ← pOverflow o
+    let cs ← pList pInt cs
+    if !(cs.all (fun c => decide (fmt.lo ≤ c ∧ c ≤ fmt.hi))) then return "SKIP"
+    let vs := cs.map (valueOf fmt)
+    let model := vs.map (quantize fmt r o)
+    let fl := vs.map (storeFlags fmt r o)
+    -- Spec: observed codes are the input codes, and no flag is raised
+    let want := [showList toString cs, "0", "0", "0"]
+    let m := showList toString model :: flagsTok fl
+    pure (reply (decide (m = obs)) (decide (want = obs)) m)
+  | _ => throw "I5: arity"
+
+/-- `M5 <fmt> <rounding> <carrier> [v sorted...] | [codes]` — monotonicity under saturate. -/
+def opM5 (args obs : List String) : P String := do
+  match args with
+  | [s, n, f, r, _carrier, vs] =>
+    let fmt ← pFmt s n f
+    let r ← pRounding r
+    let vs ← pList pRat vs
+    if !(vs.all (inCoreDomain fmt)) then return "SKIP"
+    let model := vs.map (quantize fmt r .saturate)
+    match obs with
+    | [cs] =>
+      match pList pInt cs with
+      | .ok cs => pure (reply (decide (cs = model)) (Chk.sortedInt cs && cs.length == vs.length) [showList toString model])
+      | .error _ => pure (reply false false [showList toString model])
+    | _ => pure (reply false false [showList toString model])
+  | _ => throw "M5: arity"
+
 def dispatch (op : String) (args obs : List String) : P String :=
   match op with
   | "Q1" => opQ1 args obs
   | "QC" => opQC args obs
+  | "W3" => opW3 args obs
+  | "WS" => opWS args obs
+  | "WR" => opWR args obs
+  | "R5" => opR5 args obs
+  | "I5" => opI5 args obs
+  | "M5" => opM5 args obs
   | _ => throw s!"unknown op {op}"
 
 end Fxp.Ops
